@@ -290,14 +290,72 @@ def r_wrappers(ctx: Ctx, model):
                        f"iast_point_fraction passes partial pressures {[str(x) for x in getattr(pp, 'items', [pp])]} (branch {cap.get('branch')}); required "
                        "fraction_i * total_pressure for the fractions as given (they need not sum to one), branch and guess threaded"),
            nontrivial_key=("wrap", "fraction"))
-    svp = ast.unparse(model.func(f"{IA}.iast_binary_svp").node)
-    vle = ast.unparse(model.func(f"{IA}.iast_binary_vle").node)
-    ctx.ob("x[0] / mole_fractions[0] / (x[1] / mole_fractions[1])" in svp and "iast_point_fraction(isotherms, mole_fractions, pressure, branch=branch" in svp,
-           Finding("C13.I-wrappers", model.func(f"{IA}.iast_binary_svp").where, "svp|selectivity", "selectivity must be (n0/y0)/(n1/y1) of iast_point_fraction(...)"),
-           nontrivial_key=("wrap", "svp"))
-    ctx.ob("x[0] / (x[0] + x[1])" in vle and "iast_point_fraction(isotherms, fraction, total_pressure, branch=branch" in vle,
-           Finding("C13.I-wrappers", model.func(f"{IA}.iast_binary_vle").where, "vle|x", "adsorbed fraction must be n0/(n0+n1) of iast_point_fraction(...)"),
-           nontrivial_key=("wrap", "vle"))
+    # iast_binary_svp / iast_binary_vle: interpreted with a two-row matrix abstraction; iast_point_fraction is replaced by a
+    # recorder that returns fresh loadings (n0_k, n1_k) per call
+    for which in ("iast_binary_svp", "iast_binary_vle"):
+        fi = model.func(f"{IA}.{which}")
+        I = mk(model)
+        calls = []
+
+        def rec(I, fi_, env, n, calls=calls):
+            k = len(calls)
+            calls.append(dict(env))
+            return Vec([S(f"n0_{k}"), S(f"n1_{k}")])
+        I.overrides[f"{IA}.iast_point_fraction"] = rec
+        I.ext["numpy.linspace"] = lambda I, a, k, n: Vec([S(f"yl{j}") for j in range(int(I.to_py(a[2], n)))])
+
+        def np_array(I, a, k, n):
+            v = a[0]
+            if isinstance(v, (tuple, list)) and v and all(isinstance(x, Vec) for x in v):
+                return Obj(kind="Mat", attrs={"rows": [Vec(list(x.items)) for x in v]})
+            return v if isinstance(v, Vec) else Vec(list(v))
+        I.ext["numpy.array"] = np_array
+        I.ext["numpy.asarray"] = np_array
+        I.ext["numpy.zeros"] = lambda I, a, k, n: Obj(kind="Mat", attrs={"rows": [Vec([sp.Integer(0)] * int(I.to_py(a[0][1], n)))
+                                                                                  for _ in range(int(I.to_py(a[0][0], n)))]})
+        I.libmeth[("Mat", "transpose")] = lambda I, v, a, k, n: Obj(kind="Mat", attrs={"rows": [Vec([r.items[j] for r in v.attrs["rows"]])
+                                                                                                for j in range(len(v.attrs["rows"][0].items))]})
+        I.libmeth[("Mat", "__iter__")] = lambda I, v, a, k, n: list(v.attrs["rows"])
+
+        def mat_set(I, v, a, k, n):
+            idx, val = a
+            row = int(I.to_py(idx[0], n))
+            v.attrs["rows"][row] = val if isinstance(val, Vec) else Vec(list(val))
+        I.libmeth[("Mat", "__setitem__")] = mat_set
+        I.ext["builtins.len"] = (lambda old: lambda I, a, k, n: sp.Integer(len(a[0].attrs["rows"])) if isinstance(a[0], Obj) and a[0].kind == "Mat" else old(I, a, k, n))(I.ext["builtins.len"])
+        isos = [Obj(kind="IsoW", label=f"iso{i}", attrs={"pressure_mode": "absolute", "pressure_unit": "bar", "adsorbate": f"A{i}"}) for i in range(2)]
+        P = S("P")
+        if which == "iast_binary_vle":
+            args, kw = [isos, P], {"npoints": sp.Integer(2), "branch": "BR", "adsorbed_mole_fraction_guess": "G", "warningoff": True}
+        else:
+            y0 = S("y0")
+            args, kw = [isos, Vec([y0, 1 - y0]), Vec([S("P0"), S("P1")])], {"branch": "BR", "adsorbed_mole_fraction_guess": "G", "warningoff": True}
+        outs = I.explore(lambda I: (calls.clear(), I.call_func(fi, list(args), dict(kw), None))[1])
+        ok = len(outs) == 1 and outs[0].kind == "ok" and isinstance(outs[0].value, dict)
+        why = f"outcome {outs[:1]}"
+        if ok:
+            res = outs[0].value
+            thread = all(c.get("branch") == "BR" and c.get("adsorbed_mole_fraction_guess") == "G" and c.get("isotherms") is isos for c in calls)
+            if which == "iast_binary_vle":
+                ys = [S("yl0"), S("yl1")]
+                good_calls = len(calls) == 2 and all(isinstance(c.get("gas_mole_fraction"), Vec) and
+                                                     [sp.simplify(u - w) for u, w in zip(c["gas_mole_fraction"].items, (ys[j], 1 - ys[j]))] == [0, 0]
+                                                     and c.get("total_pressure") == P for j, c in enumerate(calls))
+                xs_ = res.get("x")
+                xs_ = xs_.items if isinstance(xs_, Vec) else xs_
+                want = [0] + [S(f"n0_{j}") / (S(f"n0_{j}") + S(f"n1_{j}")) for j in range(2)] + [1]
+                good_x = xs_ is not None and len(xs_) == 4 and all(sp.simplify(sp.sympify(I.to_py(u, None) if not isinstance(u, sp.Basic) else u) - w) == 0 for u, w in zip(xs_, want))
+                ok = thread and good_calls and good_x
+                why = f"calls threaded={thread}, fractions/pressure passed correctly={good_calls}, x = n0/(n0+n1) with end points 0 and 1: {good_x} (x = {xs_})"
+            else:
+                good_calls = len(calls) == 2 and all(c.get("total_pressure") == S(f"P{j}") and isinstance(c.get("gas_mole_fraction"), Vec)
+                                                     and sp.simplify(c["gas_mole_fraction"].items[0] - y0) == 0 for j, c in enumerate(calls))
+                sel = res.get("selectivity")
+                want = [(S(f"n0_{j}") / y0) / (S(f"n1_{j}") / (1 - y0)) for j in range(2)]
+                good_s = isinstance(sel, list) and len(sel) == 2 and all(sp.simplify(u - w) == 0 for u, w in zip(sel, want))
+                ok = thread and good_calls and good_s
+                why = f"calls threaded={thread}, fractions/pressures passed correctly={good_calls}, selectivity = (n0/y0)/(n1/y1): {good_s} ({sel})"
+        ctx.ob(ok, Finding("C13.I-wrappers", fi.where, f"{which}|formula", f"{which}: {why}"), nontrivial_key=("wrap", which))
 
 
 def r_dtype(ctx: Ctx, model):
